@@ -510,6 +510,33 @@ let handle (r : reader) : unit =
       let rs = next_ranges r in
       out_s "OK"; out_n d;
       out_ranges (moc_of_ranges q w d rs)
+  | "SETQ" ->
+      (* SETQ <i|c|p|l> <dep> <region ranges | 1 x 0 | id list as ranges (id,0)> <dunion> <n> (st id depth ranges)*
+         -> OK k id* | union ranges *)
+      let m = next r in
+      let dep = next r = "1" in
+      let reg = next_ranges r in
+      let du = next_n r in
+      let ents =
+        next_list r (fun r ->
+            let st = (match next r with "v" -> QValid | "d" -> QDeprecated | _ -> QRemoved) in
+            let id = next_n r in
+            let d = next_n r in
+            let rg = next_ranges r in
+            { s_st = st; s_id = id; s_depth = d; s_rng = rg })
+      in
+      let ids, u =
+        match m with
+        | "i" -> (query Intersect dep reg ents, union_query Intersect dep reg du ents)
+        | "c" -> (query Included dep reg ents, union_query Included dep reg du ents)
+        | "p" -> let x = fst (List.hd reg) in (query_pos dep x ents, union_pos dep x du ents)
+        | _ -> let l = List.map fst reg in ([], union_ids l du ents)
+      in
+      out_s "OK";
+      out_int (List.length ids);
+      List.iter out_n ids;
+      out_s " |";
+      out_ranges u
   | "EXPR" ->
       let q = next_qty r in
       let w = next_n r in
